@@ -316,7 +316,7 @@ class PyClosure:
 
 
 LIST_IDENTITY = ("core::slice::<impl [T]>::iter", "core::ops::deref::Deref::deref", "core::ops::deref::DerefMut::deref_mut", "core::slice::<impl [T]>::iter_mut", "core::iter::traits::collect::IntoIterator::into_iter",
-                 "alloc::vec::Vec::<T, A>::as_slice", "alloc::vec::Vec::<T, A>::as_mut_slice", "core::iter::traits::iterator::Iterator::copied",
+                 "alloc::vec::Vec::<T, A>::as_slice", "alloc::vec::Vec::<T, A>::as_mut_slice", "core::array::<impl [T; N]>::as_slice", "core::array::<impl [T; N]>::as_mut_slice", "core::iter::traits::iterator::Iterator::copied",
                  "core::iter::traits::iterator::Iterator::cloned", "alloc::slice::<impl [T]>::to_vec")
 
 
@@ -2005,6 +2005,12 @@ class Interp:
                 return {"lt": a < b, "le": a <= b, "gt": a > b, "ge": a >= b}[gen[-2:]]
             if isinstance(a, str) and isinstance(b, str):
                 return {"lt": a < b, "le": a <= b, "gt": a > b, "ge": a >= b}[gen[-2:]]
+            if isinstance(a, Enum) and isinstance(b, Enum) and a.adt == b.adt and a.variant == b.variant and all(isinstance(v, (int, Enum)) and not isinstance(v, bool) for v in a.fields.values()):
+                try:
+                    if a == b:      # a derived ordering is irreflexive on equal values
+                        return {"lt": False, "le": True, "gt": False, "ge": True}[gen[-2:]]
+                except Unknown:
+                    pass
             raise Unknown("ordering on non-numbers (derived PartialOrd is resolved by rules)")
         if gen == "core::clone::Clone::clone":
             v0 = self.ev(args[0], env, depth)
